@@ -165,6 +165,27 @@ func c20Standalone(sel int, seed []byte) func() *c20Val {
 		v6(func() dhcpv6.Option {
 			return dhcpv6.OptClientID(&dhcpv6.DUIDLLT{HWType: 1, Time: 7, LinkLayerAddr: bs(0, 6)})
 		}),
+		// numeric arguments beyond what the wire field can hold (the constructors take them; an encoder may clamp,
+		// wrap or truncate the encoded value, but neither encoding nor printing may rewrite the option that is read)
+		v6(func() dhcpv6.Option { return dhcpv6.OptElapsedTime(20*time.Minute + time.Duration(len(seed))*time.Millisecond) }),
+		v6(func() dhcpv6.Option { return dhcpv6.OptElapsedTime(655360 * time.Millisecond) }),
+		v6(func() dhcpv6.Option { return dhcpv6.OptInformationRefreshTime((1<<33 + 7) * time.Second) }),
+		v6(func() dhcpv6.Option {
+			return &dhcpv6.OptIANA{IaId: [4]byte{4, 3, 2, 1}, T1: (1 << 33) * time.Second, T2: -5 * time.Second, Options: dhcpv6.IdentityOptions{Options: dhcpv6.Options{
+				&dhcpv6.OptIAAddress{IPv6Addr: net.IP(bs(0, 16)), PreferredLifetime: 1500 * time.Millisecond, ValidLifetime: (1<<32 + 1) * time.Second},
+			}}}
+		}),
+		v6(func() dhcpv6.Option { return dhcpv6.OptRelayPort(65535) }),
+		v6(func() dhcpv6.Option {
+			tc := uint8(0)
+			return &dhcpv6.Opt4RDNonMapRule{HubAndSpoke: true, TrafficClass: &tc, DomainPMTU: 65535}
+		}),
+		v4(func() dhcpv4.Option { return dhcpv4.OptIPAddressLeaseTime((1<<33 + 9) * time.Second) }),
+		v4(func() dhcpv4.Option { return dhcpv4.OptRenewTimeValue(-3 * time.Second) }),
+		v4(func() dhcpv4.Option { return dhcpv4.OptRebindingTimeValue(1999 * time.Millisecond) }),
+		v4(func() dhcpv4.Option { return dhcpv4.OptIPv6OnlyPreferred((1<<33 + 3) * time.Second) }),
+		v4(func() dhcpv4.Option { return dhcpv4.OptMaxMessageSize(65535) }),
+		v4(func() dhcpv4.Option { return dhcpv4.OptHostName(string(bs(0, 300))) }),
 	}
 	return table[((sel%len(table))+len(table))%len(table)]
 }
@@ -272,7 +293,7 @@ func TestC20_Rapid(t *testing.T) { c20.rapidCheck(t, genC20()) }
 
 // TestC20_Standalone runs every standalone constructor value with every single path as the whole program.
 func TestC20_Standalone(t *testing.T) {
-	for sel := 0; sel < 21; sel++ {
+	for sel := 0; sel < 33; sel++ {
 		for prog := 0; prog < 12; prog++ {
 			c20.one(t, c20Case{Kind: 4, Opt: sel, B: []byte{9, 3, 7, 1, 250, 4, 66}, Prog: []int{prog, prog + 1}})
 		}
